@@ -6,6 +6,9 @@
 (*  "route" an implementation-shaped model of the breadth-wise path expansion of         *)
 (*          find_lanelet_successors_in_range: one step per processed path, one step per  *)
 (*          while-iteration; on EVERY digraph without self-loops on N lanelets            *)
+(*  "hist"  an implementation-shaped model of one lanelet object with its cached          *)
+(*          cumulative distance under every history of queries and mutations (<= MaxMut   *)
+(*          mutations): a filled cache must always be the Cum of the CURRENT center line  *)
 (* TLC checks the laws of LaneletGeom on the spec's own polylines, that the expansion    *)
 (* terminates (<>done under weak fairness, no state constraint) and that its result     *)
 (* satisfies ValidRoutes.  DEV_NoLoopGuard = TRUE drops the `s in p` guard (must be      *)
@@ -15,7 +18,9 @@ EXTENDS LaneletGeom
 CONSTANTS Steps,        \* admissible steps <<dx, dy>> (integer length)
           MaxSegs,      \* polylines have 1..MaxSegs segments
           MergeSegs,    \* merged lanes have 1..MergeSegs segments each
-          N, Lens, Ranges, Starts, Modes, Den, DEV_NoLoopGuard
+          N, Lens, Ranges, Starts, Modes, Den, DEV_NoLoopGuard,
+          MaxMut,                  \* "hist" mode: histories with at most MaxMut mutations
+          DEV_SetterKeepsDistance  \* TRUE: the center_vertices setter keeps the cached distance (as shipped)
 
 StepsQ1 == {<<1, 0>>, <<2, 0>>, <<0, 1>>, <<0, 2>>, <<3, 4>>, <<4, 3>>}   \* cfg: Steps <- StepsQ1 (first quadrant)
 ASSUME \A st \in Steps : HasIntLen(<<0, 0>>, st)
@@ -33,9 +38,10 @@ LaneOf(poly)  == [l |-> LeftOf(poly), c |-> poly, r |-> RightOf(poly)]
 Graphs        == {g \in [Nodes -> SUBSET Nodes] : \A n \in Nodes : n \notin g[n]}
 
 VARIABLES mode, pa, pb, s2,                                  \* geometry part
+          lane, hist, nm, dc,                                \* history part: current lane, tokens so far, #mutations, cached distance
           G, len, start, range,                              \* route part: the query
           paths, plens, pnext, lnext, i, final, rnd, done    \* route part: the algorithm's variables
-vars == <<mode, pa, pb, s2, G, len, start, range, paths, plens, pnext, lnext, i, final, rnd, done>>
+vars == <<mode, pa, pb, s2, lane, hist, nm, dc, G, len, start, range, paths, plens, pnext, lnext, i, final, rnd, done>>
 
 RECURSIVE SortedSeq(_)
 SortedSeq(S) == IF S = {} THEN <<>>
@@ -44,21 +50,41 @@ InSeq(x, s)  == \E k \in 1..Len(s) : s[k] = x
 
 NoRoute == /\ G = <<>> /\ len = <<>> /\ start = 0 /\ range = 0 /\ paths = <<>> /\ plens = <<>>
            /\ pnext = <<>> /\ lnext = <<>> /\ i = 1 /\ final = <<>> /\ rnd = 0 /\ done = TRUE
-InitGeom  == /\ "geom" \in Modes /\ mode = "geom" /\ pa \in Polys /\ pb = <<>> /\ s2 = 0 /\ NoRoute
-InitMerge == /\ "merge" \in Modes /\ mode = "merge" /\ s2 = 0 /\ NoRoute
+NoHist == lane = <<>> /\ hist = <<>> /\ nm = 0 /\ dc = <<>>
+HistPolys == {PolyOf(<<0, 0>>, << <<1, 0>>, <<3, 4>> >>), PolyOf(<<1, 1>>, << <<0, 2>>, <<4, 3>>, <<2, 0>> >>)}
+InitHist  == /\ "hist" \in Modes /\ mode = "hist" /\ pa \in HistPolys /\ pb = <<>> /\ s2 = 0 /\ NoRoute
+             /\ lane = LaneOf(pa) /\ hist = <<>> /\ nm = 0 /\ dc = <<>>
+InitGeom  == /\ "geom" \in Modes /\ mode = "geom" /\ pa \in Polys /\ pb = <<>> /\ s2 = 0 /\ NoRoute /\ NoHist
+InitMerge == /\ "merge" \in Modes /\ mode = "merge" /\ s2 = 0 /\ NoRoute /\ NoHist
              /\ \E sa, sb \in StepSeqs(MergeSegs) :
                    pa = PolyOf(<<0, 0>>, sa) /\ pb = PolyOf(Last(PolyOf(<<0, 0>>, sa)), sb)
-InitRoute == /\ "route" \in Modes /\ mode = "route" /\ pa = <<>> /\ pb = <<>> /\ s2 = 0
+InitRoute == /\ "route" \in Modes /\ mode = "route" /\ pa = <<>> /\ pb = <<>> /\ s2 = 0 /\ NoHist
              /\ G \in Graphs /\ len \in [Nodes -> Lens] /\ start \in Starts /\ range \in Ranges
              /\ paths = [k \in 1..Cardinality(G[start]) |-> <<SortedSeq(G[start])[k]>>]
              /\ plens = [k \in 1..Cardinality(G[start]) |-> len[SortedSeq(G[start])[k]]]
              /\ pnext = <<>> /\ lnext = <<>> /\ i = 1 /\ final = <<>> /\ rnd = 0 /\ done = FALSE
-Init == InitGeom \/ InitMerge \/ InitRoute
+Init == InitGeom \/ InitMerge \/ InitRoute \/ InitHist
 
 Walk == /\ \/ mode = "geom" /\ s2 < 2 * Length(pa)
            \/ mode = "merge" /\ s2 < 2 * (Length(pa) + Length(pb))
         /\ s2' = s2 + 1
-        /\ UNCHANGED <<mode, pa, pb, G, len, start, range, paths, plens, pnext, lnext, i, final, rnd, done>>
+        /\ UNCHANGED <<mode, pa, pb, lane, hist, nm, dc, G, len, start, range, paths, plens, pnext, lnext, i, final, rnd, done>>
+
+(* ---- history part: the lanelet object with its lazily filled distance cache ---- *)
+RouteVars == <<G, len, start, range, paths, plens, pnext, lnext, i, final, rnd, done>>
+(* every query reads self.distance (interpolate_position does so first thing): it fills the cache *)
+HQuery(q) == /\ mode = "hist" /\ nm < MaxMut /\ (IF hist = <<>> THEN TRUE ELSE Last(hist) \notin QueryToks)
+             /\ dc' = IF dc = <<>> THEN Cum(lane.c) ELSE dc
+             /\ hist' = Append(hist, q) /\ UNCHANGED <<mode, pa, pb, s2, lane, nm>> /\ UNCHANGED RouteVars
+HMut(m)   == /\ mode = "hist" /\ nm < MaxMut
+             /\ lane' = Apply(m, lane)
+             /\ dc' = CASE m \in MoveToks  -> dc            \* translate_rotate keeps the cache (arc lengths are invariant)
+                         [] m = "setc"      -> IF DEV_SetterKeepsDistance THEN dc ELSE <<>>
+                         [] m \in {"setl", "setr"} -> dc    \* the center line is untouched
+                         [] m \in MergeToks -> <<>>          \* a new object
+             /\ hist' = Append(hist, m) /\ nm' = nm + 1
+             /\ UNCHANGED <<mode, pa, pb, s2>> /\ UNCHANGED RouteVars
+HistNext  == (\E q \in QueryToks : HQuery(q)) \/ (\E m \in MutToks : HMut(m))
 
 (* the inner `for s in successors` loop for one path p with accumulated length le *)
 RECURSIVE ExpSucc(_, _, _, _)
@@ -70,7 +96,7 @@ ExpSucc(p, le, S, acc) ==
        ELSE IF le + len[s] < range
        THEN ExpSucc(p, le, Tail(S), [acc EXCEPT !.nxt = Append(@, p \o <<s>>), !.nl = Append(@, le + len[s])])
        ELSE ExpSucc(p, le, Tail(S), [acc EXCEPT !.fin = Append(@, p \o <<s>>)])
-Geo == <<mode, pa, pb, s2, G, len, start, range>>
+Geo == <<mode, pa, pb, s2, lane, hist, nm, dc, G, len, start, range>>
 (* one iteration of `for p, le in zip(paths, lengths)` *)
 Step == /\ mode = "route" /\ ~done /\ i <= Len(paths)
         /\ LET p == paths[i]  S == SortedSeq(G[Last(paths[i])])
@@ -84,7 +110,7 @@ Advance == /\ mode = "route" /\ ~done /\ i > Len(paths) /\ Len(paths) > 0
            /\ UNCHANGED <<final, done>> /\ UNCHANGED Geo
 Finish  == /\ mode = "route" /\ ~done /\ Len(paths) = 0 /\ done' = TRUE
            /\ UNCHANGED <<paths, plens, pnext, lnext, i, final, rnd>> /\ UNCHANGED Geo
-Next == Walk \/ Step \/ Advance \/ Finish
+Next == Walk \/ Step \/ Advance \/ Finish \/ HistNext
 Spec == Init /\ [][Next]_vars /\ WF_vars(Next)
 
 (* ---- laws ---- *)
@@ -108,6 +134,15 @@ LawMerge     == mode = "merge" /\ s2 = 0 => LET a == LaneOf(pa)  b == LaneOf(pb)
                                      /\ WellFormed(Merge(a, b).c)
 LawMergedPoint == mode = "merge" => LawMergePoint(LaneOf(pa), LaneOf(pb), s2, 2)   \* s2 walks the merged lane
 
+(* what a query answers from (the cache if filled) is the Cum of the current center line; the lane stays a lane *)
+HistCoherent == mode = "hist" => /\ WellFormed(lane.c) /\ Len(lane.l) = Len(lane.c) /\ Len(lane.r) = Len(lane.c)
+                                 /\ (dc # <<>> => dc = Cum(lane.c))
+HistRigid    == mode = "hist" => \A m \in MoveToks : LawRigidCum(lane, m)
+(* the pointwise half of the rigid-motion law is checked on the geometry part's polylines (s2 walks the grid) *)
+LawRigidPoint == IsGeom /\ Len(pa) <= 3 => \A m \in MoveToks : LawRigid(LaneOf(pa), m, s2, 2)   \* (<= 2 segments: cost)
+HistStretch  == mode = "hist" => /\ Length(Stretch(lane.c)) = 2 * Length(lane.c)
+                                 /\ Joint(lane, SuccLane(lane)) /\ WellFormed(SuccLane(lane).c)
+
 IsRoute == mode = "route"
 InvResult == IsRoute /\ done => ValidRoutes(G, len, start, range, final)
 InvSound  == IsRoute => RoutesClause(G, len, start, range, final \o paths \o pnext) \in {"", "cover"}
@@ -123,6 +158,8 @@ Emit ==
         PrintT(<<"CASE", ToJson([kind |-> "poly", c |-> pa, l |-> LeftOf(pa), r |-> RightOf(pa), sd |-> 2, den |-> Den])>>)
   /\ (mode = "merge" /\ s2 = 0) =>
         PrintT(<<"CASE", ToJson([kind |-> "merge", a |-> LaneJ(pa), b |-> LaneJ(pb), den |-> Den])>>)
+  /\ mode = "hist" =>
+        PrintT(<<"CASE", ToJson([kind |-> "hist", base |-> LaneJ(pa), hist |-> hist])>>)
   /\ (mode = "route" /\ ~done /\ rnd = 0 /\ i = 1) =>
         PrintT(<<"CASE", ToJson([kind |-> "query", succ |-> G, len |-> len, start |-> start, range |-> range])>>)
 =================================================================================
